@@ -27,6 +27,7 @@ and of the quotient (Proofs/MinQuotient.lean) are combined in Proofs/MinifyCorre
 import AutomataVerif.Proofs.MinifyExpand
 import AutomataVerif.Model.Convert
 import AutomataVerif.Proofs.MinGlueSubset
+import AutomataVerif.Proofs.MinRep
 
 namespace AV.Props.C05
 open AV AV.DFA
@@ -148,6 +149,89 @@ theorem C05_idempotent_size (d : AV.DFA σ α) (hv : d.validate = .ok ()) (ps : 
           S'.accepts pick' w
         rw [h1]; exact S.accepts pick w
   omega
+
+/-- **Minimising an already minimal DFA does not change its size** — the literal clause, for
+ANY minimal `d` (hand-built ones included), not only for outputs of `minify`: if the states
+of `d` are reachable and pairwise distinguishable and — when `d` is declared partial — all
+live (no dead state), then `minify` returns a DFA with exactly as many states, of the same
+kind when `d` is complete.  (By `C05_minimal_complete` / `C05_minimal_partial` these
+hypotheses are exactly "`d` has the fewest states of its kind".) -/
+theorem C05_minimal_input_size (d : AV.DFA σ α) (hv : d.validate = .ok ()) (ps : d.PyShape)
+    (pick : List Nat → Nat)
+    (hreach : ∀ q ∈ d.states, ∃ w, d.run (some d.init) w = some q)
+    (hdist : ∀ p ∈ d.states, ∀ q ∈ d.states, p ≠ q →
+      ∃ w, d.isFinal (d.run (some p) w) ≠ d.isFinal (d.run (some q) w))
+    (hlive : d.allowPartial = true → ∀ q ∈ d.states, ∃ w, d.isFinal (d.run (some q) w) = true) :
+    (d.minify pick).states.length = d.states.length ∧
+    (d.allowPartial = false → (d.minify pick).allowPartial = false) := by
+  have wf := (validate_eq_ok d).mp hv
+  have S := minify_source wf ps
+  have hle := minify_size_le wf ps pick
+  have hcomp : d.allowPartial = false → (d.minify pick).allowPartial = false :=
+    fun hc => S.complete_of_noTrap pick (minify_noTrap_of_complete wf hc)
+  refine ⟨?_, hcomp⟩
+  have hge : d.states.length ≤ (d.minify pick).states.length := by
+    cases hp : d.allowPartial with
+    | true =>
+      have h := minimal_of_reachable_distinguishable_partial d (d.minify pick) ps.states_nodup
+        hreach hdist (hlive hp) (S.wf pick) (fun w => S.accepts pick w)
+      exact Nat.le_trans h.1 h.2
+    | false =>
+      refine minimal_of_reachable_distinguishable_complete d (d.minify pick) wf ps.states_nodup
+        hreach hdist (S.wf pick) (hcomp hp) ?_ (fun w => S.accepts pick w)
+      intro a ha
+      have : (d.minify pick).syms = d.syms := minifyCore_syms _ _ _ _ _ _
+      rw [this]; exact ha
+  omega
+
+/-- **No `KeyError` inside `_minify`.**  `minifyCore` is a total function: it reads
+`back_map[initial_state]`, `back_map[acc]`, `next(iter(eq))` and `transitions[eq_class_rep]`
+through `getD` / `filterMap` / `head?`.  On the arguments `minify` passes, none of these
+defaults is ever taken: whenever some class avoids the trap (otherwise `empty_language` is
+returned before the look-ups), the initial state and every kept final state have a name,
+every such class has a first element, and every member of it has a row.  The same holds for
+every other caller of `_minify` (`AV.DFA.MinSource.no_keyerror` is stated for any
+`MinSource`: `to_partial`, `complement`, the Boolean operations, `from_nfa`). -/
+theorem C05_minify_no_keyerror (d : AV.DFA σ α) (hv : d.validate = .ok ()) (ps : d.PyShape)
+    (pick : List Nat → Nat)
+    (hne : (goodBlocks (hopcroft d.minifyKept d.syms d.trans d.minifyFinals pick)).isEmpty = false) :
+    (nameOfIn (goodBlocks (hopcroft d.minifyKept d.syms d.trans d.minifyFinals pick)) d.init).isSome
+      = true ∧
+    (∀ f ∈ d.minifyFinals,
+      (nameOfIn (goodBlocks (hopcroft d.minifyKept d.syms d.trans d.minifyFinals pick)) f).isSome
+        = true) ∧
+    (∀ b ∈ goodBlocks (hopcroft d.minifyKept d.syms d.trans d.minifyFinals pick),
+      ∃ r row, (blockStates b.2).head? = some r ∧ alookup r d.trans = some row) ∧
+    (∀ b ∈ goodBlocks (hopcroft d.minifyKept d.syms d.trans d.minifyFinals pick),
+      ∀ r ∈ blockStates b.2, ∃ row, alookup r d.trans = some row) :=
+  (minify_source ((validate_eq_ok d).mp hv) ps).no_keyerror pick hne
+
+/-- `minify` with the choice of class representatives as a parameter: `repPick l` is the
+position, in the list `l` of members of a class, of the state whose row is copied
+(Python: `next(iter(eq))`, i.e. hash order).  `minify` itself uses the head. -/
+def minifyRep (d : AV.DFA σ α) (repPick : List σ → Nat) (pick : List Nat → Nat) :
+    AV.DFA (MinName σ) α :=
+  minifyCoreRep repPick d.minifyKept d.syms d.trans d.init d.minifyFinals pick
+
+/-- **The result does not depend on which member of a class represents it.**  For every
+`repPick` (and every pop order `pick`) the result has the same states, initial state, final
+states, `allow_partial` flag and transition function as `d.minify pick`, every row has the same
+set of `(symbol, target name)` entries as the row with the same key of `d.minify pick`, and
+it is valid with the language of `d`.  Hence every theorem of this file about sizes,
+languages, kinds and names transfers to every choice of representatives. -/
+theorem C05_rep_independent (d : AV.DFA σ α) (hv : d.validate = .ok ()) (ps : d.PyShape)
+    (repPick : List σ → Nat) (pick : List Nat → Nat) :
+    (minifyRep d repPick pick).states = (d.minify pick).states ∧
+    (minifyRep d repPick pick).syms = d.syms ∧
+    (minifyRep d repPick pick).init = (d.minify pick).init ∧
+    (minifyRep d repPick pick).finals = (d.minify pick).finals ∧
+    (minifyRep d repPick pick).allowPartial = (d.minify pick).allowPartial ∧
+    (∀ s a, (minifyRep d repPick pick).step? s a = (d.minify pick).step? s a) ∧
+    (∀ kv ∈ (minifyRep d repPick pick).trans, ∃ kv' ∈ (d.minify pick).trans, kv'.1 = kv.1 ∧
+      ∀ a n, (a, n) ∈ kv.2 ↔ (a, n) ∈ kv'.2) ∧
+    (∀ w, (minifyRep d repPick pick).accepts w = d.accepts w) ∧
+    (minifyRep d repPick pick).validate = .ok () :=
+  (minify_source ((validate_eq_ok d).mp hv) ps).rep_independent pick repPick
 
 /-- **Equivalent states are always merged.**  Two source states with the same right language
 never end up in two different states of the result. -/
@@ -375,6 +459,63 @@ example : exComplete.PyShape := ⟨by decide, by decide, by decide, by decide, b
 example : exComplete.minify.allowPartial = false ∧
     exComplete.minify.states = [MinName.blk [0], MinName.blk [1, 2]] := by
   decide
+
+/-- `exComplete.minify` by hand: two states, minimal — `C05_minimal_input_size` applies to it
+(reachable: `[]`, `[0]`; distinguishable by `[]`), and to the partial `exMinPartial`. -/
+def exMinComplete : AV.DFA Nat Nat :=
+  { states := [0, 1], syms := [0], trans := [(0, [(0, 1)]), (1, [(0, 1)])],
+    init := 0, finals := [1], allowPartial := false }
+
+/-- Language {[0]} as a partial DFA without dead state. -/
+def exMinPartial : AV.DFA Nat Nat :=
+  { states := [0, 1], syms := [0], trans := [(0, [(0, 1)]), (1, [])],
+    init := 0, finals := [1], allowPartial := true }
+
+example : (exMinComplete.minify).states.length = 2 ∧ (exMinPartial.minify).states.length = 2 := by decide
+
+example : (exMinComplete.minify).states.length = exMinComplete.states.length :=
+  (C05_minimal_input_size exMinComplete rfl ⟨by decide, by decide, by decide, by decide, by decide⟩ _
+    (by intro q hq
+        simp only [exMinComplete, List.mem_cons, List.not_mem_nil, or_false] at hq
+        rcases hq with rfl | rfl
+        · exact ⟨[], rfl⟩
+        · exact ⟨[0], rfl⟩)
+    (by intro p hp q hq hpq
+        simp only [exMinComplete, List.mem_cons, List.not_mem_nil, or_false] at hp hq
+        rcases hp with rfl | rfl <;> rcases hq with rfl | rfl
+        · exact absurd rfl hpq
+        · exact ⟨[], by decide⟩
+        · exact ⟨[], by decide⟩
+        · exact absurd rfl hpq)
+    (by intro h; cases h)).1
+
+example : (exMinPartial.minify).states.length = exMinPartial.states.length :=
+  (C05_minimal_input_size exMinPartial rfl ⟨by decide, by decide, by decide, by decide, by decide⟩ _
+    (by intro q hq
+        simp only [exMinPartial, List.mem_cons, List.not_mem_nil, or_false] at hq
+        rcases hq with rfl | rfl
+        · exact ⟨[], rfl⟩
+        · exact ⟨[0], rfl⟩)
+    (by intro p hp q hq hpq
+        simp only [exMinPartial, List.mem_cons, List.not_mem_nil, or_false] at hp hq
+        rcases hp with rfl | rfl <;> rcases hq with rfl | rfl
+        · exact absurd rfl hpq
+        · exact ⟨[], by decide⟩
+        · exact ⟨[], by decide⟩
+        · exact absurd rfl hpq)
+    (by intro _ q hq
+        simp only [exMinPartial, List.mem_cons, List.not_mem_nil, or_false] at hq
+        rcases hq with rfl | rfl
+        · exact ⟨[0], by decide⟩
+        · exact ⟨[], by decide⟩)).1
+
+/-- representative independence on the example with the two-element class `{1, 2}`: copying
+the row of `2` instead of `1` gives the same automaton here; the hypothesis of
+`C05_minify_no_keyerror` (some class avoids the trap) holds -/
+example : (minifyRep exComplete (fun _ => 1) (fun _ => 0)).trans = exComplete.minify.trans ∧
+    (minifyRep exComplete (fun _ => 1) (fun _ => 0)).states = exComplete.minify.states ∧
+    (goodBlocks (hopcroft exComplete.minifyKept exComplete.syms exComplete.trans
+      exComplete.minifyFinals (fun _ => 0))).isEmpty = false := by decide
 
 /-- An all-dead partial DFA: the result is `empty_language` with the state `zero` (F16). -/
 def exDead : AV.DFA Nat Nat :=
